@@ -632,6 +632,8 @@ class Walker:
                 if armed and dl is not None and dl <= now and not self.timer[h].get("stale_arming"):
                     self.fail("C05", "missed", "timer %d (deadline %d) was due at phase %d but did not fire in that Ok dispatch" % (h, dl, self.phase))
                     self.fail("C02", "missed-timer", "expired timer %d not dispatched" % h)
+                    self.fail("C12", "due-timer-not-fired", "timer %d (deadline %d) was armed and due when the dispatch at phase %d waited, yet the dispatch returned "
+                              "Ok without firing it: the loop would sleep past it" % (h, dl, self.phase))
             elif kind == "ping" and sp:
                 if snap["pingc"].get(int(sp[3]), 0) > 0:
                     self.fail("C02", "missed-ping", "ping source %d had an unconsumed ping when the dispatch polled but was not called" % h)
@@ -642,6 +644,8 @@ class Walker:
                 if (n > 0 or (senders == 0 and not closed)):
                     self.fail("C02", "missed-chan", "channel source %d had %d queued messages / %d senders when the dispatch polled but was not called"
                               % (h, n, senders))
+                    self.fail("C04", "stranded", "channel source %d had %d queued messages / %d senders when the dispatch polled, it is inserted and enabled, "
+                              "and the dispatch returned Ok without calling it: nothing is on its way to wake it" % (h, n, senders))
             elif kind == "comp" and sp:
                 subs = sp[5:]
                 for j in range(0, len(subs), 3):
